@@ -548,6 +548,25 @@ theorem C19_total_partial (f : Font) (bs : List Nat) :
   obtain ⟨pre, t, e, ht, _, hl, _⟩ := lexFrom_ok (decodeUtf8 bs) (.start []) 1
   exact parseToks_total f _ pre t e ht hl
 
+/-- Totality without escape, on the modelled part of the language: for every font and every text
+in which no item is one of the keywords `GSUB5`, `GSUB6`, `GPOS7`, `GPOS8` (`Bad`), the parser model
+returns lookups or an error whose line number is ≥ 1.  Every other text is covered: unknown
+keywords, malformed GSUB 1–4 and GPOS 1–4 bodies, lexer errors, any bytes. -/
+theorem C19_total (f : Font) (bs : List Nat) (h : ∀ t ∈ lexRunes (decodeUtf8 bs), Bad t = false) :
+    match parseBytes f bs with
+    | .ok _ => True
+    | .error e => 1 ≤ e.line := by
+  obtain ⟨pre, t, e, ht, _, hl, _⟩ := lexFrom_ok (decodeUtf8 bs) (.start []) 1
+  exact parseToks_total_clean f _ pre t e ht hl h
+
+/-- the hypothesis holds for an ordinary (here: erroneous) text `GSUB1: A -> B⏎GSUB2: A` -/
+example : ∀ t ∈ lexRunes (decodeUtf8 [71, 83, 85, 66, 49, 58, 32, 65, 32, 45, 62, 32, 66, 10, 71, 83, 85, 66, 50, 58, 32, 65]),
+    Bad t = false := by decide +kernel
+
+/-- the hypothesis is about four identifiers only -/
+example (t : Tok) (h : t.typ ≠ tIdentifier) : Bad t = false := by
+  simp [Bad, isIdent, h]
+
 example : errFuel ≠ unmodelled := by decide
 /-- an erroring text: the error carries line 2 -/
 example : (match parseBytes fontN [71, 83, 85, 66, 49, 58, 32, 65, 32, 45, 62, 32, 66, 10, 71, 83, 85, 66, 50, 58, 32, 65] with
